@@ -419,6 +419,47 @@ Theorem C03_property_unlimited_memory_backed :
 Proof. exact property_unlimited. Qed.
 Print Assumptions C03_property_unlimited_memory_backed.
 
+(* ... its second sentence, Depth = d > 0: the given node's own graph is held, and nothing new
+   lies outside the graphs of stored nodes at most d link steps above the given node
+   ([extended_copy_run_only]: the copy phase dispatched only roots that findRoots returned;
+   d0 = what the destination held before) *)
+Theorem C03_property_depth_memory_backed :
+  forall (ct : GM.amap) (fuelm : nat) (ops : list GM.op) (s : source) (g : graph) (nd : desc)
+         (d0 final : list node),
+    backed_by s (GM.s_g (fst (GM.run ct fuelm GM.init_state ops))) ->
+    (forall p x, In (N.of_nat x) (GM.ctab ct (N.of_nat p)) <-> In x (g_succ g p)) ->
+    (forall a, anc s [] (d_id nd) a -> g_foreign g a = false) ->
+    forall (rank : GM.node -> nat) (limit : Z) (fuel : nat) (roots : list desc),
+    content_acyclic (GM.ctab ct) rank -> mt_consistent g -> (0 < limit)%Z ->
+    find_roots fuel s [] limit nd = Some roots ->
+    extended_copy_run g final roots -> extended_copy_run_only g d0 final roots ->
+    (forall x, Proofs.CopySpec.reach g (d_id nd) x -> has g final x = true) /\
+    (forall x, In x final ->
+       In x d0 \/
+       exists a k, (Z.of_nat k <= limit)%Z /\
+         rpath (link_up (GM.ctab ct) (GM.s_g (fst (GM.run ct fuelm GM.init_state ops)))) k (d_id nd) a /\
+         Proofs.CopySpec.reach g a x).
+Proof. exact property_depth. Qed.
+Print Assumptions C03_property_depth_memory_backed.
+
+(* ... and with filters (unlimited depth): everything below every stored node that reaches the
+   given node through links whose manifests satisfy the filters *)
+Theorem C03_property_filtered_memory_backed :
+  forall (ct : GM.amap) (fuelm : nat) (ops : list GM.op) (s : source) (fs : list filter) (g : graph)
+         (nd : desc) (final : list node),
+    backed_by s (GM.s_g (fst (GM.run ct fuelm GM.init_state ops))) -> all_served_ok s ->
+    (forall p x, In (N.of_nat x) (GM.ctab ct (N.of_nat p)) <-> In x (g_succ g p)) ->
+    (forall a, anc s fs (d_id nd) a -> g_foreign g a = false) ->
+    forall (rank : GM.node -> nat) (limit : Z) (fuel : nat) (roots : list desc),
+    content_acyclic (GM.ctab ct) rank -> mt_consistent g -> (limit <= 0)%Z ->
+    find_roots fuel s fs limit nd = Some roots ->
+    extended_copy_run g final roots ->
+    forall a, (exists k, rpath (followed_links (GM.ctab ct) (GM.s_g (fst (GM.run ct fuelm GM.init_state ops))) s fs)
+                               k (d_id nd) a) ->
+    forall x, Proofs.CopySpec.reach g a x -> has g final x = true.
+Proof. exact property_filtered. Qed.
+Print Assumptions C03_property_filtered_memory_backed.
+
 Example C03_ex_property_all :
   forall a, up_links ct_two 10 ops_two (d_id (mkDesc 0 [] None)) a ->
   forall x, Proofs.CopySpec.reach g_two a x -> has g_two [1; 2; 0] x = true.
